@@ -65,6 +65,18 @@ func (e *Engine) doCall(st *State, fr *Frame, call ssa.CallInstruction, val ssa.
 	if e.Cfg.Classify != nil {
 		disp = e.Cfg.Classify(ci)
 	}
+	if disp == nil && ci.IsInvoke && ci.Recv != nil && ci.Recv.K == KBox && ci.Recv.T != nil {
+		// the dynamic type of the receiver is known: resolve the interface call statically
+		if sel := e.Cfg.Prog.MethodSets.MethodSet(ci.Recv.T).Lookup(ci.Method.Pkg(), ci.Method.Name()); sel != nil {
+			if fn := e.Cfg.Prog.MethodValue(sel); fn != nil && len(fn.Blocks) > 0 && (fn.Pkg == e.Cfg.Pkg || parentPkg(fn) == e.Cfg.Pkg) {
+				ci.IsInvoke = false
+				ci.Static = fn
+				ci.Args = append([]*Term{ci.Recv.A[0]}, ci.Args...)
+				ci.Method = nil
+				ci.Recv = nil
+			}
+		}
+	}
 	if disp == nil {
 		disp = &Disposition{}
 	}
@@ -541,8 +553,46 @@ func (e *Engine) builtin(st *State, fr *Frame, call ssa.CallInstruction, val ssa
 		set(Ev(site, 0, 0))
 		e.deliver(st, ev)
 	case "min", "max":
-		st.shiftSite(site)
-		set(Ev(site, 0, 0))
+		r := Pure("builtin."+b.Name(), 0, args...)
+		set(r)
+		// bounds of the result from the bounds of the operands
+		var lo, hi int64
+		hasLo, hasHi := b.Name() == "min", b.Name() == "max"
+		_ = hasHi
+		first := true
+		okLo, okHi := true, true
+		for _, a := range args {
+			ba := e.bounds(st.facts, a)
+			if first {
+				lo, hi, okLo, okHi = ba.lo, ba.hi, ba.hasLo, ba.hasHi
+				first = false
+				continue
+			}
+			if b.Name() == "max" {
+				// lo = max of known los (any known lo is a lower bound), hi = max of his (all needed)
+				if ba.hasLo && (!okLo || ba.lo > lo) {
+					lo, okLo = ba.lo, true
+				}
+				if !ba.hasHi {
+					okHi = false
+				} else if okHi && ba.hi > hi {
+					hi = ba.hi
+				}
+			} else {
+				if ba.hasHi && (!okHi || ba.hi < hi) {
+					hi, okHi = ba.hi, true
+				}
+				if !ba.hasLo {
+					okLo = false
+				} else if okLo && ba.lo < lo {
+					lo = ba.lo
+				}
+			}
+		}
+		_ = hasLo
+		if okLo || okHi {
+			st.facts.bnd[r] = bound{lo: lo, hi: hi, hasLo: okLo, hasHi: okHi}
+		}
 	case "print", "println":
 	case "recover":
 		set(Nil())
